@@ -82,13 +82,17 @@ def tlc(module, cfg, *, workers=None, timeout=900, simulate=None, depth=None, se
     for f in os.listdir(SPEC):
         if f.endswith(".tla") or f.endswith(".cfg"):
             shutil.copy(os.path.join(SPEC, f), wd)
+    if isinstance(cfg, tuple):          # (name, text): a cfg instantiated from a template by the check
+        with open(os.path.join(wd, cfg[0]), "w") as fh:
+            fh.write(cfg[1])
+        cfg = cfg[0]
     e = dict(os.environ)
     e["VERIF_OUT"] = wd
     if env_extra:
         e.update({k: str(v) for k, v in env_extra.items()})
     jopts = []
-    if heap:
-        jopts.append("-Xmx" + heap)
+    jopts.append("-Xmx" + (heap or "6g"))
+    jopts.append("-XX:ParallelGCThreads=%d" % max(2, min(workers, 8)))
     jopts.append("-Xss256m")
     if dfs:
         jopts.append("-Dtlc2.tool.queue.IStateQueue=StateDeque")
@@ -148,6 +152,39 @@ def tlc(module, cfg, *, workers=None, timeout=900, simulate=None, depth=None, se
     if not keep and r.ok:
         shutil.rmtree(os.path.join(wd, "meta"), ignore_errors=True)
     return r
+
+
+def tlc_parallel(jobs):
+    """jobs: list of (name, kwargs for tlc()); runs them concurrently, returns {name: TLCResult}."""
+    import concurrent.futures as cf
+    out = {}
+    with cf.ThreadPoolExecutor(max_workers=len(jobs)) as ex:
+        futs = {ex.submit(lambda kw=kw: tlc(**kw)): name for name, kw in jobs}
+        for f in cf.as_completed(futs):
+            out[futs[f]] = f.result()
+    return out
+
+
+def cfg_text(constants, invariants, view=None, spec="Spec", properties=None, constraint=None, postcondition=None):
+    t = "SPECIFICATION %s\nCONSTANTS\n" % spec
+    for k, v in constants.items():
+        if isinstance(v, bool):
+            v = "TRUE" if v else "FALSE"
+        if isinstance(v, str) and v.startswith("<-"):
+            t += "  %s %s\n" % (k, v)
+        else:
+            t += "  %s = %s\n" % (k, v)
+    if view:
+        t += "VIEW %s\n" % view
+    if constraint:
+        t += "CONSTRAINT %s\n" % constraint
+    if invariants:
+        t += "INVARIANTS " + " ".join(invariants) + "\n"
+    if properties:
+        t += "PROPERTIES " + " ".join(properties) + "\n"
+    if postcondition:
+        t += "POSTCONDITION %s\n" % postcondition
+    return t
 
 
 def run_harness(binary, args, *, timeout=3600, env_extra=None, stdin=None):
